@@ -5,32 +5,34 @@ usage: regress_refactors.py [refactoring ...]"""
 import sys, os, subprocess, glob, json
 
 VERIF = "/verif"
+WT = os.environ.get("REGRESS_WT", "/repo")      # tree the changes are applied to (a scratch worktree allows parallel runs)
+ENV = dict(os.environ, ARK_REPO=WT)
 
 
 def main():
     names = sys.argv[1:] or sorted(os.path.basename(d) for d in glob.glob(os.path.join(VERIF, "refactors", "C*")))
-    if subprocess.run(["git", "-C", "/repo", "status", "--porcelain"], capture_output=True, text=True).stdout.strip():
-        print("/repo not clean")
+    if subprocess.run(["git", "-C", WT, "status", "--porcelain"], capture_output=True, text=True).stdout.strip():
+        print(WT + " not clean")
         sys.exit(2)
     alarms, skipped, touched = [], [], set()
     for n in names:
         d = os.path.join(VERIF, "refactors", n)
         patch = os.path.join(d, "patch.diff")
         meta = json.load(open(os.path.join(d, "result.json")))
-        if subprocess.run(["git", "-C", "/repo", "apply", "--check", patch], capture_output=True).returncode != 0:
+        if subprocess.run(["git", "-C", WT, "apply", "--check", patch], capture_output=True).returncode != 0:
             skipped.append(n)
             print("%-8s patch does not apply to the current tree" % n)
             continue
-        subprocess.run(["git", "-C", "/repo", "apply", patch], check=True)
+        subprocess.run(["git", "-C", WT, "apply", patch], check=True)
         bad = {}
         try:
             for cid in meta["checks_run"]:
                 touched.add(cid)
-                r = subprocess.run(["python3", os.path.join(VERIF, "check.py"), cid], capture_output=True, text=True)
+                r = subprocess.run(["python3", os.path.join(VERIF, "check.py"), cid], capture_output=True, text=True, env=ENV)
                 if r.returncode != 0:
                     bad[cid] = [l[:300] for l in r.stdout.splitlines() if l.startswith(("FAIL", "VIOLATION"))]
         finally:
-            subprocess.run(["git", "-C", "/repo", "checkout", "HEAD", "--", "."], check=True)
+            subprocess.run(["git", "-C", WT, "checkout", "HEAD", "--", "."], check=True)
         meta["alarms"] = bad
         json.dump(meta, open(os.path.join(d, "result.json"), "w"), indent=1)
         if bad:
@@ -39,8 +41,9 @@ def main():
         else:
             print("%-8s quiet (%s)" % (n, " ".join(meta["checks_run"])))
     print("false alarms:", alarms, "skipped:", skipped)
-    for cid in sorted(touched):
-        subprocess.run(["python3", os.path.join(VERIF, "check.py"), cid], capture_output=True)
+    if WT == "/repo":
+        for cid in sorted(touched):
+            subprocess.run(["python3", os.path.join(VERIF, "check.py"), cid], capture_output=True)
     sys.exit(1 if alarms else 0)
 
 
